@@ -129,6 +129,8 @@ pub struct Hop {
     /// A rewriting device sits at this hop: quoted datagrams from here on carry a UDP checksum
     /// recomputed for a translated source (the value differs per device).
     pub nat: u16,
+    /// The translating device does not restore the source address inside ICMP quotations.
+    pub nat_keep_src: bool,
     /// Rewrite the quoted TOS byte to this value + 1 (0 = leave).
     pub tos_rewrite: u8,
 }
